@@ -126,6 +126,11 @@ fn gen_range(r: &mut Rng, regs: &[Enc]) -> Range {
             let e = r.pick(regs);
             (e.ty.to_string(), e.sub.to_string())
         }
+        5 if r.chance(1, 4) => {
+            // a wildcard type with a concrete subtype is no media range that matches anything
+            let sub = if !regs.is_empty() && r.bool() { r.pick(regs).sub.to_string() } else { r.pick(&["xml", "html", "json"]).to_string() };
+            ("*".to_string(), sub)
+        }
         5 => ("*".to_string(), "*".to_string()),
         6 => (r.pick(&["application", "text", "image"]).to_string(), "*".to_string()),
         7 if !regs.is_empty() => (r.pick(regs).ty.to_string(), "*".to_string()),
